@@ -785,10 +785,34 @@ func runC16(c *fw.Ctx) {
 		self, _ := os.Executable()
 		racebin := strings.TrimSuffix(self, "vcheck-sched") + "vcheck-race"
 		if _, err := os.Stat(racebin); err == nil {
-			cmd := exec.Command(racebin, "racepass")
-			cmd.Env = append(os.Environ(), "GORACE=halt_on_error=0 exitcode=0")
-			out, _ := cmd.CombinedOutput()
-			s := string(out)
+			// the free-running pass may hang for real (a deadlock needs no scheduler to be one): it is
+			// given 100 times its normal duration, twice, before that is reported
+			runPass := func() (string, bool) {
+				cmd := exec.Command(racebin, "racepass")
+				cmd.Env = append(os.Environ(), "GORACE=halt_on_error=0 exitcode=0")
+				var buf strings.Builder
+				cmd.Stdout, cmd.Stderr = &buf, &buf
+				if err := cmd.Start(); err != nil {
+					return err.Error(), false
+				}
+				done := make(chan struct{})
+				go func() { cmd.Wait(); close(done) }()
+				select {
+				case <-done:
+					return buf.String(), false
+				case <-time.After(8 * time.Minute):
+					cmd.Process.Kill()
+					<-done
+					return buf.String(), true
+				}
+			}
+			s, hung := runPass()
+			if hung {
+				s, hung = runPass()
+				if hung {
+					c.Violate("free-running-pass-hangs", "C16:free-running-hang", "the harness bodies on free-running goroutines (real sync package) did not finish within 8 minutes, twice (normal: seconds): a deadlock", map[string]interface{}{"output_tail": clipS(s, 1500)})
+				}
+			}
 			nraces := strings.Count(s, "WARNING: DATA RACE")
 			c.Note("free_running_race_detector_pass", map[string]interface{}{"ran": true, "data_race_reports": nraces, "summary": lastLine(s)})
 			if nraces > 0 {
